@@ -4,6 +4,7 @@ use std::io::{self, BufRead, Write};
 
 mod ns;
 pub mod parse;
+mod source;
 mod pkgname;
 
 fn main() {
@@ -11,6 +12,7 @@ fn main() {
     let f: fn(&str) -> String = match engine.as_str() {
         "ns" => ns::run_case,
         "parse" => parse::run_case,
+        "source" => source::run_case,
         "pkgname" => pkgname::run_case,
         other => panic!("unknown engine {other}"),
     };
